@@ -32,6 +32,7 @@ func runChain(t *testing.T, sp *chainSpec) {
 	runCheck(t, sp.prop, prof, func(src Source, st *Stats) *Outcome {
 		var firstViol *Violation
 		var prevApp *AppState
+		paramsChangedSeen := 0
 		gsrc, generating := src.(*GenSource)
 		// A real node serves mempool checks all the time: CheckTx of the block's own txs right before their
 		// delivery and of fresh valid txs at the ABCI-call boundaries. They must not influence what the model predicts.
@@ -87,8 +88,19 @@ func runChain(t *testing.T, sp *chainSpec) {
 					}
 					return violationf("%s", msg)
 				}
-				if gs, ok := src.(*GenSource); ok && sp.pRestart > 0 && c.EndedBy == "" && pct(gs.t, sp.pRestart, "restartAfter") {
-					b.RestartAfter = true
+				if gs, ok := src.(*GenSource); ok && sp.pRestart > 0 && c.EndedBy == "" {
+					// more often right after a block that switched the governance parameters or moved stakes:
+					// that is when memory rebuilt on restart can differ from memory carried over
+					pr := sp.pRestart
+					if c.W.Feat["params_changed"] > paramsChangedSeen {
+						paramsChangedSeen = c.W.Feat["params_changed"]
+						pr = 50
+					} else if len(c.W.delegOps) > 0 {
+						pr = 3 * sp.pRestart
+					}
+					if pct(gs.t, pr, "restartAfter") {
+						b.RestartAfter = true
+					}
 				}
 				if b.RestartAfter && c.EndedBy == "" {
 					if _, perr := c.Sim.Restart(); perr != nil {
